@@ -164,6 +164,35 @@ func TestVerif_C14(t *testing.T) {
 			for k, n := 0, 1+r.IntN(6); k < n; k++ {
 				batch = append(batch, g.Next())
 			}
+			if b == faultBatch || r.IntN(3) == 0 {
+				// make sure deletion statements of both kinds run inside fault-enumerated
+				// batches: a request naming a stored addressable event by address and a
+				// stored event by id
+				var byAddr, byID *mocrelay.Event
+				for _, x := range model.Live() {
+					if _, has := vk.DValue(x); has && vk.ClassOf(x.Kind) == vk.Addressable && byAddr == nil {
+						byAddr = x
+					} else if x.Kind != 5 && byID == nil {
+						byID = x
+					}
+				}
+				if byAddr != nil || byID != nil {
+					author := ""
+					k := &mocrelay.Event{Kind: 5, CreatedAt: g.TimeBase + r.Int64N(g.TimeRange), Content: fmt.Sprintf("crafted deletion %d %d", i, b), Tags: []mocrelay.Tag{}}
+					if byAddr != nil {
+						author = byAddr.Pubkey
+						k.Tags = append(k.Tags, mocrelay.Tag{"a", vk.AddrTag(byAddr), "wss://hint"})
+					}
+					if byID != nil && (author == "" || byID.Pubkey == author) {
+						author = byID.Pubkey
+						k.Tags = append(k.Tags, mocrelay.Tag{"e", byID.ID})
+					}
+					k.Pubkey = author
+					batch = append(batch, vk.Seal(k))
+					g.Offered = append(g.Offered, k)
+					rep.Count("crafted_deletions_in_faulted_batches", 1)
+				}
+			}
 			fg.Events = g.Offered
 			if keyCollision(d.seed, g.Offered) {
 				rep.Count("histories_discarded_for_key_collision", 1)
